@@ -94,7 +94,8 @@ def find_definition(project, code, offset, resource=None, maxfixes=1):
     if pyname is not None:
         module, lineno = pyname.get_definition_location()
         name = worder.Worder(code).get_word_at(offset)
-        if lineno is not None:
+        # A package (a folder) has no lines to search in.
+        if lineno is not None and hasattr(module, "lines"):
             start = module.lines.get_line_start(lineno)
 
             def check_offset(occurrence):
